@@ -135,6 +135,45 @@ func monCentre(o *Obs) []finding {
 
 type c04stats struct{ samplesIn, samplesOut, edges int }
 
+const sigMoat = "hole-on-self-cancelled-polygon"
+
+// holeOnSelfCancelledPolygon: the known finding KF-MOAT. Some output polygon's shell is identical (up to start vertex and
+// direction) to one of its own holes - an island whose zero-width moat collapsed: texel keeps one such shell/hole pair -
+// and that polygon carries another hole that contains the location: the hole (a lake on the island) was attached to the
+// self-cancelled island instead of to the surrounding polygon, which therefore covers it.
+func holeOnSelfCancelledPolygon(outRings [][][]P, p P) bool {
+	same := func(a, b []P) bool {
+		if len(a) != len(b) || len(a) < 3 {
+			return false
+		}
+		ka, kb := make([]PixKey, len(a)), make([]PixKey, len(b))
+		for i := range a {
+			ka[i], kb[i] = PixKey(a[i]), PixKey(b[i])
+		}
+		if oracle.CyclicEq(ka, kb) {
+			return true
+		}
+		oracle.Reverse(kb)
+		return oracle.CyclicEq(ka, kb)
+	}
+	for _, pg := range outRings {
+		if len(pg) < 3 {
+			continue
+		}
+		for i := 1; i < len(pg); i++ {
+			if !same(pg[0], pg[i]) {
+				continue
+			}
+			for j := 1; j < len(pg); j++ {
+				if j != i && len(pg[j]) >= 3 && oracle.PointInRing(pg[j], p) > 0 {
+					return true
+				}
+			}
+		}
+	}
+	return false
+}
+
 // monC04: (a) vertices are centres of hot pixels, (b) edges stay within half a pixel of the input boundary,
 // (c) far from the boundary, covered by output iff covered by input.
 func monC04(o *Obs) (fs []finding, st map[int]c04stats) {
@@ -171,7 +210,7 @@ func monC04(o *Obs) (fs []finding, st map[int]c04stats) {
 		bad = false
 		for _, e := range outEdges(l) {
 			s.edges++
-			if !bad && !oracle.EdgeWithinTube(toC(e.a), toC(e.b), inEdges, pix/2) {
+			if !bad && !oracle.EdgeWithinTube(toC(e.a), toC(e.b), inEdges, pix-pix/2) { // half a pixel, rounded up: for an odd pixel size the integer centre sits half a unit off the true centre
 				bad = true
 				fs = append(fs, finding{"edge-leaves-half-pixel-tube", sig, fmt.Sprintf("tile matrix %d: output edge %v-%v (pixel indices) has points farther than half a pixel (Chebyshev) from the input boundary", z, e.a, e.b), z})
 			}
@@ -232,6 +271,10 @@ func monC04(o *Obs) (fs []finding, st map[int]c04stats) {
 				}
 				if in != cov {
 					bad = true
+					sig := sig
+					if sig == "" && !in && cov && holeOnSelfCancelledPolygon(outRings, p) {
+						sig = sigMoat
+					}
 					fs = append(fs, finding{"coverage-differs", sig, fmt.Sprintf("tile matrix %d: location %v (integer units) is farther than one pixel from the input boundary; covered by input: %v, covered by output: %v", z, p, in, cov), z})
 					break
 				}
